@@ -202,7 +202,9 @@ fn planned_counts(plan: &Plan, lens: &[usize], request_has_edns: bool) -> [usize
 
 const KEY_NAMES: &[&str] = &["k.", "tsig-key.z.test.", "transfer-key.example.com."];
 
-pub fn gen_plan(rng: &mut Rng, lens: &[usize], n_spec_sets: usize) -> Plan {
+/// `large`: indices of the sets whose records are big enough (TXT, ≥ 50 octets) that the space left
+/// after a cut can hold a TSIG record.
+pub fn gen_plan(rng: &mut Rng, lens: &[usize], n_spec_sets: usize, large: &[usize]) -> Plan {
     let nonempty: Vec<usize> = (0..lens.len()).filter(|i| lens[*i] > 0).collect();
     let slice = |rng: &mut Rng, small: bool| -> Slice {
         // main sets (the zone's RRsets) three times out of four, else a set of address records
@@ -218,17 +220,25 @@ pub fn gen_plan(rng: &mut Rng, lens: &[usize], n_spec_sets: usize) -> Plan {
         let from = if rng.chance(1, 3) { rng.usize_below(len - n + 1) } else { 0 };
         Slice { set, from, n }
     };
+    let big_records = !large.is_empty() && rng.chance(1, 3);
     let an = match rng.below(10) {
+        _ if big_records => {
+            let set = *rng.pick(large);
+            let n = rng.urange(1, lens[set].max(1));
+            vec![Slice { set, from: if rng.bool() { 0 } else { rng.usize_below(lens[set] - n + 1) }, n }]
+        }
         0 => vec![],
         1 | 2 => vec![slice(rng, false), slice(rng, true)],
         _ => vec![slice(rng, false)],
     };
     let ns = match rng.below(5) {
+        _ if big_records => vec![],
         0 | 1 | 2 => vec![],
         3 => vec![slice(rng, true)],
         _ => vec![slice(rng, false)],
     };
     let ar = match rng.below(5) {
+        _ if big_records && rng.chance(2, 3) => vec![],
         0 | 1 | 2 => vec![],
         3 => vec![slice(rng, true)],
         _ => vec![slice(rng, false)],
@@ -245,7 +255,7 @@ pub fn gen_plan(rng: &mut Rng, lens: &[usize], n_spec_sets: usize) -> Plan {
         };
         TsigPlan { key, alg: *rng.pick(&[256u16, 256, 384, 512]), mac_len: *rng.pick(&[16usize, 20, 24, 28, 32, 32, 48, 64]), other_len, error }
     });
-    Plan { an, ns, soa: rng.chance(1, 4), ar, edns: !rng.chance(1, 4), tsig }
+    Plan { an, ns, soa: !big_records && rng.chance(1, 4), ar, edns: !rng.chance(1, 4), tsig }
 }
 
 /// One scripted exchange (the same request over TCP and over UDP), judged.
@@ -318,10 +328,11 @@ pub fn run(v: &mut Verdicts, rt: &tokio::runtime::Runtime, rng: &mut Rng, n_req:
         let spec = zone_spec(zseed);
         let (handler, cell) = Scripted::new(&spec);
         let lens = handler.set_lens();
+        let large: Vec<usize> = (0..spec.sets.len()).filter(|i| spec.sets[*i].1 == 16 && spec.sets[*i].3 >= 50).collect();
         let server = Server::new(handler);
         while done < (z + 1) * n_req / n_zones {
             done += 1;
-            let plan = gen_plan(rng, &lens, spec.sets.len());
+            let plan = gen_plan(rng, &lens, spec.sets.len(), &large);
             let payload = if rng.chance(1, 4) { Some(rng.urange(512, 3000) as u16) } else { *rng.pick(PAYLOADS) };
             let (qname, qtype) = match plan.an.first() {
                 Some(s) if s.set < spec.sets.len() => (format!("{}.{ORIGIN}", spec.sets[s.set].0), spec.sets[s.set].1),
